@@ -510,6 +510,9 @@ func (sp SynthSpec) Synthesize() (stream []byte, data []byte, strict bool, shape
 	if kinds == "H" {
 		return sp.synthHole(r)
 	}
+	if kinds == "Z" {
+		return sp.synthZeroRuns(r)
+	}
 	for b := 0; b < sp.Blocks; b++ {
 		final := b == sp.Blocks-1
 		fault := ""
@@ -1009,4 +1012,35 @@ func (sp SynthSpec) synthHole(r *Rng) (stream []byte, data []byte, strict bool, 
 		blockB()
 		return w.bytes(), out, false, shape
 	}
+}
+
+// synthZeroRuns: valid dynamic blocks whose literal/length code uses few, widely spaced symbols (so
+// the header consists mostly of long zero runs: code-length symbol 18 with 7 extra bits, and 17), with
+// a code-length code of 1..3 bit codes; only literals are emitted.
+func (sp SynthSpec) synthZeroRuns(r *Rng) (stream []byte, data []byte, strict bool, shape string) {
+	w := &bitW{}
+	var out []byte
+	strict = true
+	for b := 0; b < sp.Blocks; b++ {
+		final := b == sp.Blocks-1
+		litLens := make([]int, 286)
+		syms := []int{r.Intn(40), 60 + r.Intn(60), 140 + r.Intn(100)}
+		// a complete code over these three literals and the end-of-block code: 2,2,2,2 or 1,2,3,3
+		if r.Bool() {
+			litLens[syms[0]], litLens[syms[1]], litLens[syms[2]], litLens[256] = 2, 2, 2, 2
+		} else {
+			litLens[syms[0]], litLens[syms[1]], litLens[syms[2]], litLens[256] = 1, 2, 3, 3
+		}
+		distLens := make([]int, 30)
+		dynHeader(r, w, final, litLens, distLens, 1, 0, "")
+		var toks []tok
+		for k := sp.Size; k > 0; k-- {
+			c := byte(syms[r.Intn(3)])
+			toks = append(toks, tok{Lit: c})
+			out = append(out, c)
+		}
+		writeTokens(w, toks, litLens, distLens, true)
+		shape += "Z"
+	}
+	return w.bytes(), out, strict, shape
 }
